@@ -29,19 +29,20 @@ CaseOfRec(o) ==
    doc |-> Docs[o.di].doc, vars |-> VarsT[o.vi].vars, silent |-> FALSE, useTZ |-> FALSE, zone |-> "UTC"]
 
 (* one cancelled call *)
-OutLaw(run, out, bound) ==
+OutLaw(run, out, bound, nd) ==
   LET e == ErrRec(out.e)
       tag == "." \o run.entry \o (IF run.silent THEN ".s" ELSE ".v")
   IN IF e.cls \in {"panic", "timeout"} THEN {"C20.crash" \o tag}
      ELSE IF out.p < out.k THEN
           (* the call ended before its k-th poll: it must be the uncancelled outcome *)
-          (IF out.e = run.base.e /\ out.n = Len(run.base.i) /\ out.b = run.base.b THEN {} ELSE {"C20.unobserved-differs" \o tag})
+          (* (where Go picks the member order per call, nd, another order may end earlier and differently) *)
+          (IF nd \/ (out.e = run.base.e /\ out.n = Len(run.base.i) /\ out.b = run.base.b) THEN {} ELSE {"C20.unobserved-differs" \o tag})
      ELSE (IF e.cls = "ctx" /\ e.x /\ (IF run.kind = "c" THEN e.can ELSE e.dl) THEN {} ELSE {"C20.not-ctx-error" \o tag})
           \cup (IF out.n = 0 /\ ~out.b THEN {} ELSE {"C20.result-with-cancel" \o tag})
           \cup (IF out.p - out.k <= bound THEN {} ELSE {"C20.unbounded-steps" \o tag})
 
-RunLaw(run, bound) ==
-  UNION {OutLaw(run, run.outs[j], bound) : j \in 1..Len(run.outs)}
+RunLaw(run, bound, nd) ==
+  UNION {OutLaw(run, run.outs[j], bound, nd) : j \in 1..Len(run.outs)}
   \cup (IF Len(run.outs) = run.polls0 THEN {} ELSE {"infra.C20.k-range"})
 
 (* SPEC-DRIFT (never a violation): the number of polls PathSem predicts for  *)
@@ -58,7 +59,8 @@ Drift(o) ==
 
 JudgeCancel(o) ==
   LET bound == ChainSize(Paths[o.pi].chain, 1)
-  IN UNION {RunLaw(o.runs[j], bound) : j \in 1..Len(o.runs)} \cup Drift(o)
+      nd == Nondet(CaseOfRec(o))
+  IN UNION {RunLaw(o.runs[j], bound, nd) : j \in 1..Len(o.runs)} \cup Drift(o)
 
 VARIABLES l, verdict
 Init == /\ l \in 1..Len(Recs)
